@@ -316,6 +316,11 @@ steps:
 				break steps
 			}
 			big := json.RawMessage(`{"big":"` + strings.Repeat("x", 24<<20) + `"}`)
+			// Send marshals the 24 MiB before it writes: how long that takes on this
+			// machine at this moment is measured, not assumed
+			m0 := time.Now()
+			json.Marshal(&big)
+			marshal := time.Since(m0)
 			ctx, cancel := cCtx(st.How, after)
 			var werr error
 			t0 := time.Now()
@@ -329,7 +334,7 @@ steps:
 			// (marshalling 24 MiB takes its own time before the write starts)
 			if werr == nil {
 				fail("prompt", "cancelled-send-succeeded", "step %d: a 24 MiB send under a context ending after %v succeeded in %v although the peer reads nothing", i, after, took)
-			} else if took > after+cPrompt {
+			} else if took > after+cPrompt+20*marshal {
 				fail("prompt", "send-late-"+st.How, "step %d: send under a context (%s) ending after %v returned after %v (%v)", i, st.How, after, took, werr)
 			} else if !cIsCtxErr(werr) {
 				fail("error", "send-wrong-error-"+st.How, "step %d: %v", i, werr)
